@@ -412,6 +412,9 @@ def _install_files(files):
     def npload(path):
         return files.npy[str(path)].copy()
 
+    from sx.rt import float_shim, int_shim
+
+    ifmt.float, ifmt.int = float_shim, int_shim  # float(x) / int(x) of a symbolic number pass it through
     ifmt.open = lambda path, mode="r": _F(path)
     ifmt.json = types.SimpleNamespace(dump=dump, load=load)
     ifmt.np = types.SimpleNamespace(save=save, load=npload, ndarray=np.ndarray, integer=np.integer,
@@ -443,8 +446,19 @@ def internal_harness(ctx, cfg):
             p.scale_sym = [z3.Real(f"scale{a}") for a in range(len(cfg.get("shape", (3, 1, 1))))]
             for e in p.scale_sym:
                 ctx.add(e > 0)
-            p.tr.scale = [SReal(e) for e in p.scale_sym]
-            p.scale0 = list(p.tr.scale)
+            p.scale0 = [SReal(e) for e in p.scale_sym]
+            # the container a caller hands over: list, tuple or numpy array (the constructor stores it as given)
+            kind = ("list", "tuple", "ndarray")[ctx.choose(3, "scale_container")]
+            if kind == "list":
+                p.tr.scale = list(p.scale0)
+            elif kind == "tuple":
+                p.tr.scale = tuple(p.scale0)
+            else:
+                a = np.empty(len(p.scale0), dtype=object)
+                for q, v in enumerate(p.scale0):
+                    a[q] = v
+                p.tr.scale = a
+            ctx.input("scale_container", kind)
             ctx.input("scale", p.scale_sym)
         fd0 = X._fd(p.tr)
         area0 = {}
@@ -496,6 +510,9 @@ def internal_harness(ctx, cfg):
             exc = e
     finally:
         X._restore(saved)
+        for name in ("float", "int"):
+            if name in vars(X.ifmt):
+                delattr(X.ifmt, name)
         X.CAP.clear()
     ctx.tag("roundtrip")
     ctx.env.update(exc=repr(exc))
@@ -633,6 +650,8 @@ def _replay_internal(inp, ob, tmp):
         inp = dict(inp)
         inp["scale"] = [float(M._num(x)) for x in inp["scale"]]
     tr = build_real(inp)
+    if inp.get("scale") is not None and inp.get("scale_container") in ("tuple", "ndarray"):
+        tr.scale = tuple(inp["scale"]) if inp["scale_container"] == "tuple" else np.array(inp["scale"], dtype=float)
     pos = {int(k): [M._num(x) for x in v] for k, v in inp["pos"].items()}
     area = {int(k): M._num(v) for k, v in (inp.get("area") or {}).items()}
     for n in tr.graph.nodes:
